@@ -129,7 +129,8 @@ def _imports():
     return _IMP
 
 
-def build_graph(roots):
+def components_of(roots):
+    """(components, connections) of the tree, as the microgrid API would list them."""
     I = _imports()
     comps, conns = [I.Component(GRID_ID, I.CC.GRID)], []
 
@@ -155,9 +156,20 @@ def build_graph(roots):
                 conns.append(I.Connection(n["id"], b))
     for r in roots:
         add(r, GRID_ID)
-    g = I.Graph(set(comps), set(conns))
-    g.validate()
-    return g
+    return set(comps), set(conns)
+
+
+def build_graph(roots, graph=None):
+    """A fresh `_MicrogridComponentGraph` for the tree, or - when an existing graph OBJECT is given -
+    that same object taken to the tree's topology by `refresh_from(...)`."""
+    I = _imports()
+    comps, conns = components_of(roots)
+    if graph is None:
+        graph = I.Graph(comps, conns)
+    else:
+        graph.refresh_from(comps, conns)
+    graph.validate()
+    return graph
 
 
 def _fold_steps(steps):
@@ -236,11 +248,12 @@ def sel_of(case):
     return (binv if bsel is None else sorted(set(bsel) & set(binv))), (pv if psel is None else sorted(set(psel) & set(pv)))
 
 
-def run_generators(case):
-    """All generated formulas for the tree: {name: {"terms": [...], "value": int|None} | {"error": cls}}."""
+def run_generators(case, graph=None):
+    """All generated formulas for the tree: {name: {"terms": [...], "value": int|None} | {"error": cls}}.
+    With [graph], the existing graph object is refreshed to the tree instead of building a new one."""
     I = _imports()
     roots = case["roots"]
-    g = build_graph(roots)
+    g = build_graph(roots, graph)
     I.cm._CONNECTION_MANAGER = SimpleNamespace(component_graph=g, api_client=None)
     rd = readings(roots)
     rd[NONEX] = None
@@ -628,7 +641,7 @@ def with_subsets(case, rng):
 class TreeStream(Stream):
     name = "trees"
     coq_header = HEADER
-    n_quick = 2000
+    n_quick = 1500
     n_thorough = 12000
     exhaustive_quick = 4
     exhaustive_thorough = 6
@@ -719,3 +732,229 @@ class TreeStream(Stream):
                 if any(dedicated(m) == kind and 0 < sum(k["id"] in sel for k in m["kids"]) < len(m["kids"]) for m in meters):
                     out.append(f"{nm}_pool_subset_splits_a_dedicated_meter")
         return out
+
+
+# ----------------------------------------------------------------------------- one graph object, several topologies
+def _fix_loads(roots, rng):
+    """Unmetered load only where the premise allows it (and keep it where it already is)."""
+    single = len(roots) == 1
+    for n in walk(roots):
+        if n["k"] == "M":
+            if dedicated(n) is not None and not (single and n is roots[0]):
+                n["load"] = 0
+            elif n["load"] == 0 and rng.random() < 0.6:
+                n["load"] = rng.choice([1, 7, 13, 40, 100, 250])
+
+
+def mutate_tree(roots, rng, graveyard):
+    """A neighbouring topology that re-uses the component ids: devices added / removed / moved below
+    meters, a device changing its kind under the same id, a meter added / removed, the grid meter added /
+    removed.  [graveyard] collects ids that disappeared, to be re-used (possibly in another role) later."""
+    import copy
+    roots = copy.deepcopy(roots)
+
+    def used():
+        u = {GRID_ID}
+        for n in walk(roots):
+            u.add(n["id"])
+            if n["k"] == "B":
+                u.update(n["bats"])
+        return u
+
+    def fresh(avoid=()):
+        taken = used() | set(avoid)
+        cand = [i for i in graveyard if i not in taken]
+        if cand and rng.random() < 0.7:
+            i = rng.choice(cand)
+            while i in graveyard:
+                graveyard.remove(i)
+            return i
+        return next(i for i in range(2, 500) if i not in taken and i not in graveyard)
+
+    def power():
+        return rng.choice([1, 2, 5, 11, 30, 75, 120, 400]) * rng.choice([1, 1, -1])
+
+    def new_dev(kind):
+        i = fresh()
+        if kind == "B":
+            return {"k": "B", "id": i, "bats": [fresh([i])], "p": power()}
+        return {"k": kind, "id": i, "p": power()}
+
+    def places():       # every list that holds nodes: the grid's successors and every meter's kids
+        return [roots] + [n["kids"] for n in walk(roots) if n["k"] == "M"]
+
+    def bury(n):
+        for x in walk([n]):
+            graveyard.append(x["id"])
+            if x["k"] == "B":
+                graveyard.extend(x["bats"])
+
+    for _ in range(rng.choice([1, 1, 2, 3])):
+        op = rng.choice(["add", "add", "remove", "move", "kind", "wrap", "unwrap", "meter", "add_same"])
+        meters = [n for n in walk(roots) if n["k"] == "M"]
+        if op == "add":
+            rng.choice(places()).append(new_dev(rng.choice("BPE")))
+        elif op == "add_same":          # one more device of the type a dedicated meter already has
+            ded = [m for m in meters if dedicated(m)]
+            if ded:
+                m = rng.choice(ded)
+                m["kids"].append(new_dev(dedicated(m)))
+        elif op == "remove":
+            pl = [p for p in places() if p and not (p is roots and len(roots) == 1)]
+            if pl:
+                p = rng.choice(pl)
+                bury(p.pop(rng.randrange(len(p))))
+        elif op == "move":
+            src = [p for p in places() if any(n["k"] != "M" for n in p) and not (p is roots and len(roots) == 1)]
+            if src:
+                p = rng.choice(src)
+                i = rng.choice([j for j, n in enumerate(p) if n["k"] != "M"])
+                n = p.pop(i)
+                rng.choice(places()).append(n)
+        elif op == "kind":              # same id, other role
+            devs = [n for n in walk(roots) if n["k"] in "BPE"]
+            if devs:
+                n = rng.choice(devs)
+                k = rng.choice([x for x in "BPE" if x != n["k"]])
+                if n["k"] == "B":
+                    graveyard.extend(n.pop("bats"))
+                if k == "B":
+                    n["bats"] = [fresh()]
+                n["k"] = k
+        elif op == "wrap":              # a grid meter appears
+            if not (len(roots) == 1 and roots[0]["k"] == "M"):
+                roots[:] = [{"k": "M", "id": fresh(), "kids": list(roots), "load": 0}]
+        elif op == "unwrap":            # the grid meter disappears
+            if len(roots) == 1 and roots[0]["k"] == "M" and roots[0]["kids"]:
+                graveyard.append(roots[0]["id"])
+                roots[:] = roots[0]["kids"]
+        elif op == "meter":
+            empty = [(p, j) for p in places() for j, n in enumerate(p) if n["k"] == "M" and not n["kids"]
+                     and not (p is roots and len(roots) == 1)]
+            if empty and rng.random() < 0.5:
+                p, j = rng.choice(empty)
+                bury(p.pop(j))
+            else:
+                rng.choice(places()).append({"k": "M", "id": fresh(), "kids": [], "load": 0})
+    _fix_loads(roots, rng)
+    return roots
+
+
+REFRESH_HEADER = HEADER + """
+(* one graph object taken through several topologies: after every refresh the generated formulas
+   must be the ones of the CURRENT topology *)
+Definition check_seq (cs : list case_t) : bool := forallb check cs.
+"""
+
+
+class RefreshStream(Stream):
+    """One `_MicrogridComponentGraph` OBJECT is built for the first topology and taken through the
+    following ones with `refresh_from(...)`; all formulas are generated for every topology (so whatever
+    the graph object remembers gets populated before the refresh) and compared, per topology, with the
+    model and the oracle of the current topology."""
+    name = "refresh"
+    coq_header = REFRESH_HEADER
+    check_fn = "check_seq"
+    n_quick = 350
+    n_thorough = 4000
+
+    def boundary(self):
+        M = lambda i, kids, load=0: {"k": "M", "id": i, "kids": kids, "load": load}
+        B = lambda i, b, p: {"k": "B", "id": i, "bats": b, "p": p}
+        P = lambda i, p: {"k": "P", "id": i, "p": p}
+        E = lambda i, p: {"k": "E", "id": i, "p": p}
+        C = lambda i, p: {"k": "C", "id": i, "p": p}
+        seqs = [
+            # dedicated PV meter 3 -> mixed meter 3 (EV charger + load)
+            [[M(2, [M(3, [P(4, -20)]), B(5, [6], 10)], 7)], [M(2, [M(3, [P(4, -20), E(7, 9)], 13), B(5, [6], 10)], 7)]],
+            # mixed -> dedicated (battery), without grid meter
+            [[M(3, [B(4, [5], 10), E(7, 9)], 13), P(8, -3)], [M(3, [B(4, [5], 10)]), P(8, -3), E(7, 9)]],
+            # grid meter added, then removed again
+            [[M(3, [P(4, -20)]), E(5, 6)], [M(2, [M(3, [P(4, -20)]), E(5, 6)], 11)], [M(3, [P(4, -20)]), E(5, 6)]],
+            # the grid meter stops being the grid meter (sibling appears): it becomes a PV meter
+            [[M(3, [P(4, -20), P(5, -1)], 0)], [M(3, [P(4, -20), P(5, -1)], 0), E(6, 2)], [M(3, [P(4, -20), P(5, -1)], 9)]],
+            # same id, other role: inverter 4 PV -> EV charger 4; meter 3 PV meter -> EV meter
+            [[M(2, [M(3, [P(4, -20)]), M(8, [C(9, -4)])], 1)], [M(2, [M(3, [E(4, 20)]), M(8, [C(9, -4)])], 1)]],
+            # device removed below a mixed meter -> dedicated; battery pool subset across the refresh
+            [[M(2, [M(3, [B(4, [5], 10), B(6, [7], 20), P(8, -2)], 4)], 1)], [M(2, [M(3, [B(4, [5], 10), B(6, [7], 20)])], 1)]],
+        ]
+        for seq in seqs:
+            for fb in (True, False):
+                yield {"steps": [{"roots": t, "fb": fb} for t in seq]}
+        yield {"steps": [{"roots": seqs[5][0], "fb": True, "bsel": [4]}, {"roots": seqs[5][1], "fb": True, "bsel": [4]},
+                         {"roots": seqs[5][1], "fb": True}]}
+
+    def gen(self, rng, tier):
+        yield from self.boundary()
+        n = self.n_quick if tier == "quick" else self.n_thorough
+        for _ in range(n):
+            fb = rng.random() < 0.7
+            t = relabel(gen_tree(rng, max_nodes=7, valid=rng.random() < 0.9), rng)
+            grave = []
+            steps = [with_subsets({"roots": t, "fb": fb}, rng)]
+            for _k in range(rng.choice([1, 2, 2])):
+                t = mutate_tree(t, rng, grave)
+                steps.append(with_subsets({"roots": t, "fb": fb}, rng))
+            yield {"steps": steps}
+
+    def run_impl(self, case):
+        graph, out = None, []
+        for st in case["steps"]:
+            assert ids_unique(st["roots"]), st
+            if graph is None:
+                graph = build_graph(st["roots"])
+            out.append(run_generators(st, graph))
+        return out
+
+    def to_coq(self, case, obs):
+        return "[" + "; ".join(case_term(st, o) for st, o in zip(case["steps"], obs)) + "]"
+
+    def show_term(self, case, obs):
+        parts = []
+        for st in case["steps"]:
+            bsel, psel = sel_of(st)
+            parts.append(f"formulas {cbool(st.get('fb', True))} {c_roots(st['roots'])} {clist(bsel)} {clist(psel)}")
+        return "[" + "; ".join(parts) + "]"
+
+    def shrink(self, case):
+        steps = case["steps"]
+        if len(steps) > 1:
+            for i in range(len(steps)):
+                yield {"steps": steps[:i] + steps[i + 1:]}
+        for i, st in enumerate(steps):
+            for cand in shrink_tree(st):
+                if ids_unique(cand["roots"]):
+                    yield {"steps": steps[:i] + [cand] + steps[i + 1:]}
+
+    def key(self, case, obs):
+        def shape(n):
+            return (n["k"], n["id"], tuple(sorted(shape(k) for k in n["kids"]))) if n["k"] == "M" else (n["k"], n["id"])
+        return json.dumps([sorted(shape(r) for r in st["roots"]) for st in case["steps"]])
+
+    def labels(self, case, obs):
+        steps = case["steps"]
+        out = [f"topologies={len(steps)}", "premise_holds_throughout" if all(wf_tree(s["roots"]) for s in steps) else "some_outside_premise"]
+        for a, b in zip(steps, steps[1:]):
+            ka = {n["id"]: (n["k"], dedicated(n), tuple(sorted(k["id"] for k in n["kids"])) if n["k"] == "M" else None) for n in walk(a["roots"])}
+            kb = {n["id"]: (n["k"], dedicated(n), tuple(sorted(k["id"] for k in n["kids"])) if n["k"] == "M" else None) for n in walk(b["roots"])}
+            gma = len(a["roots"]) == 1 and a["roots"][0]["k"] == "M"
+            gmb = len(b["roots"]) == 1 and b["roots"][0]["k"] == "M"
+            if gma != gmb:
+                out.append("grid_meter_added" if gmb else "grid_meter_removed")
+            for i in set(ka) & set(kb):
+                if ka[i][0] != kb[i][0]:
+                    out.append("same_id_other_kind")
+                elif ka[i][0] == "M":
+                    if ka[i][1] and not kb[i][1]:
+                        out.append("meter_dedicated_to_mixed_or_empty")
+                    if not ka[i][1] and kb[i][1]:
+                        out.append("meter_becomes_dedicated")
+                    if ka[i][1] and kb[i][1] and ka[i][1] != kb[i][1]:
+                        out.append("meter_dedicated_to_other_type")
+                    if ka[i][2] != kb[i][2]:
+                        out.append("meter_successors_changed")
+            if set(kb) - set(ka):
+                out.append("component_added")
+            if set(ka) - set(kb):
+                out.append("component_removed")
+        return sorted(set(out))
